@@ -10,7 +10,8 @@
    bind (PyArgs/BindSpec.v) is Python's call-binding rule, tied to inspect.signature(f).bind. *)
 From Coq Require Import NArith List Bool String.
 From Verif Require Import Base.Chars Base.StrX PyArgs.Parse PyArgs.BindSpec PyArgs.DictProofs
-                          PyArgs.ParseProofs PyArgs.ScanProofs PyArgs.TopProofs PyArgs.EvalProofs.
+                          PyArgs.ParseProofs PyArgs.ScanProofs PyArgs.TopProofs PyArgs.EvalProofs
+                          PyArgs.Main PyArgs.MainProofs.
 Import ListNotations.
 Local Open Scope list_scope.
 
@@ -179,6 +180,56 @@ Theorem C15_rejects_too_many : forall fx idok spec md O argv stdin gpos evs,
 Proof. exact rejects_too_many_proof. Qed.
 Print Assumptions C15_rejects_too_many.
 
+(* ---- the `py` front end (_PyMain: _parse_global_opts + _run_action) ----
+   py_main idok O E stdin main_args : what `py main_args` does with its arguments (PyArgs/Main.v);
+   E = the environment of the action heuristics (file-name test, parsability of the joined text,
+   runnable-module test, what the function expression evaluates to, isatty);
+   selected_mode main_args = the arg mode --safe / --args=... select (Some None: none given). *)
+
+(* --safe / --args=string, whatever form the command takes (py f a b, --apply, --call, --map, a
+   module.function path, print, %apply ...): every call of a user function receives the exact
+   original strings of the command line, or the function's own defaults *)
+Theorem C15_main_string_mode_identity : forall idok O E stdin main l fn av pos kw,
+  selected_mode main = Some (Some MString) ->
+  py_main idok O E stdin main = OCalls l -> In (fn, av, Ok (pos, kw)) l ->
+  Forall (fun v => (exists a, v = VDefault a) \/ exists s, v = VStr s /\ original main stdin s)
+         (pos ++ map snd kw).
+Proof. exact main_string_mode_identity_proof. Qed.
+Print Assumptions C15_main_string_mode_identity.
+
+(* the function name and the arguments are glued into one program and evaluated only when no arg
+   mode was selected: never under --safe / --args=... *)
+Theorem C15_main_joined_only_without_mode : forall idok O E stdin main t,
+  py_main idok O E stdin main = OJoined t -> selected_mode main = Some None.
+Proof. exact joined_only_without_mode_proof. Qed.
+Print Assumptions C15_main_joined_only_without_mode.
+
+(* auto mode end to end (explicit --args=auto, or no arg mode and the command ends in calls):
+   every delivered value is an original string of the command line or its value *)
+Theorem C15_main_auto_mode : forall idok O E stdin main md l fn av pos kw,
+  selected_mode main = Some md -> md = None \/ md = Some MAuto ->
+  py_main idok O E stdin main = OCalls l -> In (fn, av, Ok (pos, kw)) l ->
+  Forall (fun v => (exists a, v = VDefault a) \/
+                   exists s, original main stdin s /\
+                             (v = VStr s \/ exists t, v = VObj t /\ O s = (Expr, RValue t)))
+         (pos ++ map snd kw).
+Proof. exact main_auto_mode_proof. Qed.
+Print Assumptions C15_main_auto_mode.
+
+(* programs (--eval, a file, stdin) under a string mode - explicit, or none given: string is their
+   default - see the original strings as sys.argv; `python -m`-like runs always do *)
+Theorem C15_main_string_programs : forall idok O E stdin main md k w r,
+  selected_mode main = Some md -> md = None \/ md = Some MString ->
+  py_main idok O E stdin main = OProgram k w r ->
+  exists args, r = Ok (map VStr args) /\ (incl args main \/ args = [[]]).
+Proof. exact main_string_programs_proof. Qed.
+Print Assumptions C15_main_string_programs.
+
+Theorem C15_main_module_args : forall idok O E stdin main m a,
+  py_main idok O E stdin main = OModule m a -> incl a main.
+Proof. exact main_module_args_proof. Qed.
+Print Assumptions C15_main_module_args.
+
 (* ---- F13: what the code before the repair did (fx = false), refuted on witnesses ----
    Full statements that are FALSE of the unrepaired code:
      forall spec n, In n (params spec) -> n <> [] -> resolve false spec n = TUnique n
@@ -233,3 +284,21 @@ Proof.
   repeat split; try (vm_compute; reflexivity).
   unfold wf_spec. vm_compute. repeat constructor; simpl; intuition discriminate.
 Qed.
+
+(* non-vacuity of the front-end theorems: `py --safe f (1+2)` is a call with the string; without
+   --safe, and the joined text parsing, it is one program *)
+Definition ex_env : env :=
+  mkEnv false (fun _ => false) (fun _ => true) (fun _ => true) (fun _ => false)
+        (fun _ => HCallable KOpaque (mkSpec [] 0 false [] [] false)) (fun _ => false).
+Example C15_nonvacuous_main :
+  selected_mode [dec "--safe"; dec "f"; dec "(1+2)"]%string = Some (Some MString)
+  /\ selected_mode [dec "--args=string"; dec "f"; dec "(1+2)"]%string = Some (Some MString)
+  /\ py_main always ex_oracle ex_env [] [dec "--safe"; dec "f"; dec "(1+2)"]%string
+     = OCalls [(dec "f"%string, [dec "(1+2)"%string], Ok ([VStr (dec "(1+2)"%string)], []))]
+  /\ py_main always ex_oracle ex_env [] [dec "f"; dec "(1+2)"]%string = OJoined (dec "f (1+2)"%string)
+  /\ py_main always ex_oracle ex_env [] [dec "--args=auto"; dec "f"; dec "1+2"]%string
+     = OCalls [(dec "f"%string, [dec "1+2"%string], Ok ([VObj (dec "int:3"%string)], []))]
+  /\ py_main always ex_oracle ex_env [] [dec "-c"; dec "x"; dec "1+2"]%string
+     = OProgram PEval (dec "x"%string) (Ok [VStr (dec "1+2"%string)]).
+Proof. repeat split; vm_compute; reflexivity. Qed.
+
